@@ -80,18 +80,19 @@ Proof.
 Qed.
 
 (* ---- decode_token: one step ---- *)
+Definition decode_tilde (r : bytes) : bytes :=
+  match r with
+  | x31 :: r' => x2f :: decode_token r'
+  | x30 :: r' => x7e :: decode_token r'
+  | _ => x7e :: decode_token r
+  end.
+
 Lemma decode_token_cons c r :
-  decode_token (c :: r) =
-  if Byte.eqb c x7e then
-    match r with
-    | x31 :: r' => x2f :: decode_token r'
-    | x30 :: r' => x7e :: decode_token r'
-    | _ => x7e :: decode_token r
-    end
-  else c :: decode_token r.
-Proof.
-  destruct c; reflexivity.
-Qed.
+  decode_token (c :: r) = if Byte.eqb c x7e then decode_tilde r else c :: decode_token r.
+Proof. destruct c; reflexivity. Qed.
+
+Lemma decode_tilde_head r : exists h tl, (h = x7e \/ h = x2f) /\ decode_tilde r = h :: tl.
+Proof. unfold decode_tilde. destruct r as [|c' r']; [eauto|]. destruct c'; eauto. Qed.
 
 Lemma pd_numch_not_tilde c : numch c = true -> Byte.eqb c x7e = false.
 Proof. destruct c; try reflexivity; discriminate. Qed.
@@ -103,10 +104,7 @@ Proof.
   induction t as [|c r IH]; [reflexivity|]. rewrite decode_token_cons.
   destruct (Byte.eqb c x7e) eqn:E.
   - intro H. exfalso.
-    assert (G : exists h tl, (h = x7e \/ h = x2f) /\
-              match r with x31 :: r' => x2f :: decode_token r' | x30 :: r' => x7e :: decode_token r' | _ => x7e :: decode_token r end = h :: tl).
-    { destruct r as [|c' r']; [eauto|]. destruct c'; eauto. }
-    destruct G as [h [tl [Hh G]]]. rewrite G in H. cbn [forallb] in H. apply andb_prop in H as [H _].
+    destruct (decode_tilde_head r) as [h [tl [Hh G]]]. rewrite G in H. cbn [forallb] in H. apply andb_prop in H as [H _].
     destruct Hh; subst h; discriminate H.
   - cbn [forallb]. intro H. apply andb_prop in H as [_ H]. rewrite (IH H). reflexivity.
 Qed.
@@ -121,7 +119,7 @@ Lemma decode_token_nonempty t : t <> [] -> decode_token t <> [].
 Proof.
   destruct t as [|c r]; [congruence|]. intros _. rewrite decode_token_cons.
   destruct (Byte.eqb c x7e); [|discriminate].
-  destruct r as [|c' r']; [discriminate|]. destruct c'; discriminate.
+  destruct (decode_tilde_head r) as [h [tl [_ G]]]. rewrite G. discriminate.
 Qed.
 
 (* decode_token does not create numeric spellings *)
@@ -148,3 +146,313 @@ Proof.
   intro H. destruct (atoi (decode_token t)) as [z|] eqn:E; auto.
   rewrite (decode_token_atoi _ _ E) in E. congruence.
 Qed.
+
+(* ---- the boolean token predicates, as Props ---- *)
+Lemma token_ok_spec t :
+  token_ok t = true <-> t <> [] /\ (forall z, atoi t = Some z -> tok_canonical t).
+Proof.
+  unfold token_ok, tok_canonical. destruct t as [|c r].
+  - split; [discriminate | intros [H _]; congruence].
+  - set (t := c :: r). split.
+    + intro H. split; [discriminate|]. intros z Hz. rewrite Hz in H.
+      destruct (canonical_nat t) as [n|]; [left; eauto|].
+      destruct (canonical_neg t) as [k|]; [right; eauto | discriminate H].
+    + intros [_ H]. destruct (atoi t) as [z|]; [|reflexivity].
+      destruct (H z eq_refl) as [[n Hn]|[k Hk]].
+      * rewrite Hn. reflexivity.
+      * rewrite Hk. destruct (canonical_nat t); reflexivity.
+Qed.
+
+(* the conjunct that Domain.token_ok lacks: canonical spellings fit strconv.Atoi's int64 *)
+Definition token_small (t : bytes) : bool :=
+  match canonical_nat t with Some n => n <=? int64_max | None => true end &&
+  match canonical_neg t with Some k => k <=? int64_max | None => true end.
+
+Lemma token_small_spec t : token_small t = true <-> tok_small t.
+Proof.
+  unfold token_small, tok_small. rewrite andb_true_iff. split.
+  - intros [H1 H2]. split.
+    + intros n Hn. rewrite Hn in H1. apply Z.leb_le. exact H1.
+    + intros k Hk. rewrite Hk in H2. apply Z.leb_le. exact H2.
+  - intros [H1 H2]. split.
+    + destruct (canonical_nat t) as [n|]; [apply Z.leb_le; auto | reflexivity].
+    + destruct (canonical_neg t) as [k|]; [apply Z.leb_le; auto | reflexivity].
+Qed.
+
+Definition token_dom (t : bytes) : bool := token_ok t && token_small t.
+
+(* ---- the bridge on one token, in both directions ---- *)
+Theorem token_dom_iff t : token_dom t = true <-> tok_dom (decode_token t).
+Proof.
+  unfold token_dom, tok_dom. rewrite andb_true_iff, token_ok_spec, token_small_spec. split.
+  - intros [[NE C] S]. split; [apply decode_token_nonempty; exact NE|]. split.
+    + split.
+      * intros n Hn. pose proof (decode_token_canonical_nat _ _ Hn) as E. rewrite E in Hn. apply (proj1 S _ Hn).
+      * intros k Hk. pose proof (decode_token_canonical_neg _ _ Hk) as E. rewrite E in Hk. apply (proj2 S _ Hk).
+    + intros z Hz. pose proof (decode_token_atoi _ _ Hz) as E. rewrite E in *. eapply C; eauto.
+  - intros [NE [S C]]. split; [split|].
+    + intro E. apply NE. rewrite E. reflexivity.
+    + intros z Hz. pose proof (decode_token_numch_in _ (pd_atoi_numch _ _ Hz)) as E. rewrite E in C. eapply C; eauto.
+    + split.
+      * intros n Hn. pose proof (decode_token_numch_in _ (pd_canonical_nat_numch _ _ Hn)) as E. rewrite E in S.
+        apply (proj1 S _ Hn).
+      * intros k Hk. pose proof (decode_token_numch_in _ (pd_canonical_neg_numch _ _ Hk)) as E. rewrite E in S.
+        apply (proj2 S _ Hk).
+Qed.
+
+Corollary token_ok_tok_dom t : token_ok t = true -> token_small t = true -> tok_dom (decode_token t).
+Proof. intros H1 H2. apply token_dom_iff. unfold token_dom. rewrite H1, H2. reflexivity. Qed.
+
+(* ---- COUNTEREXAMPLES: Domain.token_ok alone does not give tok_dom ---- *)
+(* a canonical index spelling of 20 digits: Atoi fails (out of range), so token_ok says true *)
+Example token_ok_not_tok_dom_big :
+  let t := B "99999999999999999999" in
+  token_ok t = true /\ decode_token t = t /\ atoi t = None /\ ~ tok_dom (decode_token t).
+Proof.
+  split; [vm_compute; reflexivity|]. split; [vm_compute; reflexivity|]. split; [vm_compute; reflexivity|].
+  intro D. apply token_dom_iff in D. vm_compute in D. discriminate D.
+Qed.
+
+(* the spelling of -2^63: Atoi succeeds and the spelling is canonical, but tok_small bounds the
+   absolute value by 2^63-1 *)
+Example token_ok_not_tok_dom_min64 :
+  let t := B "-9223372036854775808" in
+  token_ok t = true /\ atoi t = Some int64_min /\ ~ tok_dom (decode_token t).
+Proof.
+  split; [vm_compute; reflexivity|]. split; [vm_compute; reflexivity|].
+  intro D. apply token_dom_iff in D. vm_compute in D. discriminate D.
+Qed.
+
+(* ---- pointers ---- *)
+Definition ptr_small (p : bytes) : bool :=
+  match p with
+  | x2f :: r => forallb token_small (split_slash r)
+  | _ => true
+  end.
+
+Lemma pd_tokens_iff l :
+  forallb token_ok l && forallb token_small l = true <-> Forall tok_dom (map decode_token l).
+Proof.
+  induction l as [|t l IH]; cbn [forallb map].
+  - split; [constructor | reflexivity].
+  - split.
+    + intro H. apply andb_prop in H as [H1 H2]. apply andb_prop in H1 as [A1 A2]. apply andb_prop in H2 as [B1 B2].
+      constructor; [apply token_ok_tok_dom; auto|]. apply IH. rewrite A2, B2. reflexivity.
+    + intro H. inversion H as [|? ? D F]; subst. apply token_dom_iff in D. unfold token_dom in D.
+      apply andb_prop in D as [D1 D2]. apply IH in F. apply andb_prop in F as [F1 F2].
+      rewrite D1, D2, F1, F2. reflexivity.
+Qed.
+
+Lemma pd_pointer_ok_head c r : pointer_ok (c :: r) = true -> c = x2f.
+Proof. destruct c; try discriminate; reflexivity. Qed.
+
+Theorem pointer_dom_iff p : pointer_ok p && ptr_small p = true <-> p = [] \/ ptr_ok p.
+Proof.
+  destruct p as [|c r].
+  - split; auto.
+  - split.
+    + intro H. apply andb_prop in H as [H1 H2]. pose proof (pd_pointer_ok_head _ _ H1) as ->.
+      cbn [pointer_ok ptr_small] in H1, H2. right. exists r. split; [reflexivity|].
+      apply pd_tokens_iff. rewrite H1, H2. reflexivity.
+    + intros [H|[r' [E F]]]; [discriminate H|]. inversion E; subst. cbn [pointer_ok ptr_small].
+      apply pd_tokens_iff. exact F.
+Qed.
+
+Corollary pointer_ok_ptr_ok p : pointer_ok p = true -> ptr_small p = true -> p <> [] -> ptr_ok p.
+Proof.
+  intros H1 H2 NE. destruct (proj1 (pointer_dom_iff p)) as [E|E]; auto; [|congruence].
+  rewrite H1, H2. reflexivity.
+Qed.
+
+(* ---- operations ---- *)
+Definition op_small (op : operation) : bool :=
+  ptr_small (str_or_empty (op_str op (B "path"))) &&
+  match op_kind op with
+  | KMove | KCopy => ptr_small (str_or_empty (op_str op (B "from")))
+  | _ => true
+  end.
+
+(* number literals of the patch value start with '-' or a digit: true of every parsed text *)
+Definition value_lit (op : operation) : bool :=
+  match aget (B "value") op with Some (Some t) => tlit t | _ => true end.
+
+Lemma pd_is_empty_false p : negb (is_empty p) = true -> p <> [].
+Proof. destruct p; [discriminate | discriminate]. Qed.
+
+Lemma pd_value_present op :
+  amem (B "value") op = true -> value_is_null op = false ->
+  exists t, aget (B "value") op = Some (Some t) /\ t <> TNull.
+Proof.
+  unfold amem, value_is_null. destruct (aget (B "value") op) as [[t|]|]; try discriminate.
+  intros _ H. exists t. split; auto. intro E. subst t. discriminate H.
+Qed.
+
+(* the bridge on one operation.  validate_operation is what DecodePatch checks (path present and a
+   string; from present for move/copy; value present for add/replace): without it
+   Domain.op_in_domain reads a missing path as the empty pointer (str_or_empty) *)
+Theorem op_in_domain_op_dom op :
+  validate_operation op = true -> op_in_domain op = true -> op_small op = true ->
+  values_nodup op = true -> value_lit op = true ->
+  op_dom op.
+Proof.
+  intros V D S N L. unfold op_dom. split.
+  { unfold val_good. unfold values_nodup in N. unfold value_lit in L.
+    destruct (aget (B "value") op) as [[t|]|]; auto. }
+  unfold validate_operation in V. apply andb_prop in V as [V1 V2].
+  destruct (op_str op (B "path")) as [path|e|] eqn:Hp; try discriminate V2.
+  exists path. split; [reflexivity|].
+  unfold op_in_domain in D. unfold op_small in S. rewrite Hp in D, S. cbn [str_or_empty] in D, S.
+  apply andb_prop in D as [D1 D2]. apply andb_prop in S as [S1 S2].
+  assert (P : path = [] \/ ptr_ok path) by (apply pointer_dom_iff; rewrite D1, S1; reflexivity).
+  destruct (op_kind op) eqn:K.
+  - (* add *)
+    destruct P as [->|P]; [right | left; exact P]. split; [reflexivity|].
+    apply pd_value_present; [exact V1|]. cbn [is_empty andb] in D2. apply negb_true_iff in D2. exact D2.
+  - (* remove *)
+    destruct P as [->|P]; [discriminate D2 | exact P].
+  - (* replace *)
+    destruct P as [->|P]; [right | left; exact P]. split; [reflexivity|].
+    apply pd_value_present; [exact V1|]. cbn [is_empty andb] in D2. apply negb_true_iff in D2. exact D2.
+  - (* move *)
+    apply andb_prop in D2 as [D3 D4]. apply pd_is_empty_false in D4.
+    split; [destruct P; [congruence | assumption]|].
+    destruct (op_str op (B "from")) as [from|e|] eqn:Hf; try discriminate V1.
+    exists from. split; [reflexivity|]. cbn [str_or_empty] in D3, S2.
+    destruct (proj1 (pointer_dom_iff from)) as [E|E]; auto. rewrite D3, S2. reflexivity.
+  - (* copy *)
+    apply andb_prop in D2 as [D3 D4]. apply pd_is_empty_false in D4.
+    split; [destruct P; [congruence | assumption]|].
+    destruct (op_str op (B "from")) as [from|e|] eqn:Hf; try discriminate V1.
+    exists from. split; [reflexivity|]. cbn [str_or_empty] in D3, S2.
+    destruct (proj1 (pointer_dom_iff from)) as [E|E]; auto. rewrite D3, S2. reflexivity.
+  - (* test *)
+    destruct P; auto.
+  - discriminate D2.
+Qed.
+
+(* ---- what DecodePatch guarantees ---- *)
+Definition pd_opt_lit (v : option tjson) : Prop := match v with Some t => tlit t = true | None => True end.
+
+Lemma pd_operation_of_lit ms :
+  forallb (fun kv => tlit (snd kv)) ms = true ->
+  Forall (fun kv : bytes * option tjson => pd_opt_lit (snd kv)) (operation_of ms).
+Proof.
+  unfold operation_of. intro H.
+  assert (G : Forall (fun kv : bytes * option tjson => pd_opt_lit (snd kv)) []) by constructor.
+  revert G. generalize (@nil (bytes * option tjson)).
+  induction ms as [|[k v] ms IH]; intros acc G; [exact G|].
+  cbn [forallb snd] in H. apply andb_prop in H as [H1 H2].
+  apply (IH H2). apply Forall_aset; [exact G|]. intro k'. cbn [snd]. destruct v; simpl; auto.
+Qed.
+
+Lemma pd_operation_of_value_lit ms :
+  forallb (fun kv => tlit (snd kv)) ms = true -> value_lit (operation_of ms) = true.
+Proof.
+  intro H. apply pd_operation_of_lit in H. unfold value_lit.
+  destruct (aget (B "value") (operation_of ms)) as [[t|]|] eqn:E; auto.
+  apply aget_In in E. rewrite Forall_forall in H. apply (H _ E).
+Qed.
+
+Lemma pd_decode_patch_t t p :
+  tlit t = true -> decode_patch_t t = Some p ->
+  forallb validate_operation p = true /\ forallb value_lit p = true.
+Proof.
+  destruct t as [| | |lit|body|els|ms]; cbn [decode_patch_t]; try discriminate.
+  - intros _ H. inversion H. split; reflexivity.
+  - intros L. destruct (forallb _ els); [|discriminate].
+    destruct (forallb validate_operation _) eqn:V; [|discriminate]. intro H. inversion H; subst. clear H.
+    split; [exact V|]. clear V. cbn [tlit] in L.
+    induction els as [|e els IH]; [reflexivity|]. cbn [forallb map] in *. apply andb_prop in L as [L1 L2].
+    rewrite (IH L2), andb_true_r.
+    destruct e; try reflexivity. apply pd_operation_of_value_lit. exact L1.
+Qed.
+
+Theorem api_decode_valid bs p :
+  api_decode bs = Some p -> forallb validate_operation p = true /\ forallb value_lit p = true.
+Proof.
+  unfold api_decode. destruct (parse bs) as [t|] eqn:P; [|discriminate].
+  apply pd_decode_patch_t. eapply parse_tlit; eauto.
+Qed.
+
+(* ---- the bridge on a decoded patch ---- *)
+Theorem decoded_in_domain_op_dom bs p :
+  api_decode bs = Some p -> in_domain_C01 p = true -> forallb op_small p = true -> Forall op_dom p.
+Proof.
+  intros Dc D S. apply api_decode_valid in Dc as [V L]. unfold in_domain_C01 in D. apply andb_prop in D as [D N].
+  rewrite forallb_forall in V, L, D, N, S. apply Forall_forall. intros op Hin.
+  apply op_in_domain_op_dom; auto.
+Qed.
+
+(* C01's main theorem with its domain stated by the boolean predicates the harness evaluates *)
+Theorem C01_on_boolean_domain o indent patch p doc t :
+  (has_copy p -> codec_ok) -> plain_opts o ->
+  api_decode patch = Some p -> in_domain_C01 p = true -> forallb op_small p = true ->
+  parse doc = Some t -> root_container t = true -> tnodup t = true ->
+  match rfc_apply (dia o) (den t) (map den_op p) with
+  | Done j => exists n, api_apply o indent p doc = ROut (output o indent (render (o_esc o) n)) /\ aval n = j /\ ngood n
+  | Failed i cz => exists e, api_apply o indent p doc = RErr (Some i) e /\ cause_rel cz e
+  end.
+Proof.
+  intros CO PO Dc D S P R N. apply api_apply_sim with (t := t); auto.
+  eapply decoded_in_domain_op_dom; eauto.
+Qed.
+
+(* ---- COUNTEREXAMPLES at the level of operations ---- *)
+(* a decoded (hence validated) patch that the harness's boolean domain in_domain_C01 admits but
+   that is outside op_dom: the token is a canonical spelling that does not fit int64.  (On this
+   input the model and the reference still agree - both report an index error - so the gap is in
+   the stated hypothesis tok_small of the simulation, not an observed divergence.) *)
+Example in_domain_C01_not_op_dom :
+  match api_decode (B "[{""op"":""remove"",""path"":""/a/99999999999999999999""}]") with
+  | Some p => in_domain_C01 p = true /\ forallb op_small p = false /\ ~ Forall op_dom p
+  | None => False
+  end.
+Proof.
+  destruct (api_decode _) as [p|] eqn:E; vm_compute in E; [|discriminate E].
+  inversion E; subst p. clear E.
+  split; [vm_compute; reflexivity|]. split; [vm_compute; reflexivity|].
+  intro H. inversion H as [|? ? Hop _]; subst. clear H.
+  destruct Hop as [_ [path [Hp K]]].
+  vm_compute in Hp. inversion Hp; subst path. clear Hp.
+  match type of K with match ?k with _ => _ end => assert (Ek : k = KRemove) by (vm_compute; reflexivity); rewrite Ek in K end.
+  destruct K as [r [Er F]]. inversion Er; subst r. clear Er.
+  apply pd_tokens_iff in F. vm_compute in F. discriminate F.
+Qed.
+
+(* without DecodePatch's validation the boolean domain reads a missing path as the empty pointer *)
+Example op_in_domain_needs_validation :
+  let op : operation := [(B "op", Some (TStr (B "add"))); (B "value", Some (TNum (B "1")))] in
+  op_in_domain op = true /\ values_nodup op = true /\ op_small op = true /\
+  validate_operation op = false /\ ~ op_dom op.
+Proof.
+  repeat (split; [vm_compute; reflexivity|]).
+  intros [_ [path [Hp _]]]. vm_compute in Hp. discriminate Hp.
+Qed.
+
+(* non-vacuity of the bridge: a patch with escapes, a negative index and '-' is in the boolean
+   domain, and the bridge gives op_dom for it *)
+Example bridge_nonvacuous :
+  match api_decode (B "[{""op"":""add"",""path"":""/x~1y/-"",""value"":null},{""op"":""test"",""path"":""/a~01/-1"",""value"":1},{""op"":""move"",""from"":""/a/0"",""path"":""/b/10""}]") with
+  | Some p => in_domain_C01 p = true /\ forallb op_small p = true /\ Forall op_dom p
+  | None => False
+  end.
+Proof.
+  destruct (api_decode _) as [p|] eqn:E; [|vm_compute in E; discriminate E].
+  assert (D : in_domain_C01 p = true /\ forallb op_small p = true).
+  { pose proof E as E'. vm_compute in E'. inversion E'; subst p. split; vm_compute; reflexivity. }
+  destruct D as [D S]. split; auto. split; auto. eapply decoded_in_domain_op_dom; eauto.
+Qed.
+
+Print Assumptions decode_token_atoi.
+Print Assumptions decode_token_no_new_canonical.
+Print Assumptions token_dom_iff.
+Print Assumptions pointer_dom_iff.
+Print Assumptions op_in_domain_op_dom.
+Print Assumptions api_decode_valid.
+Print Assumptions decoded_in_domain_op_dom.
+Print Assumptions C01_on_boolean_domain.
+Print Assumptions token_ok_not_tok_dom_big.
+Print Assumptions token_ok_not_tok_dom_min64.
+Print Assumptions in_domain_C01_not_op_dom.
+Print Assumptions op_in_domain_needs_validation.
+Print Assumptions bridge_nonvacuous.
